@@ -401,6 +401,17 @@ func exec(op string) vlib.Res {
 		}
 		return vlib.Res{Impl: "ok " + vlib.Hex(b), Oracle: or}
 
+	case "b64 enc":
+		// encoding/base64's encoder against the model's RFC 4648 §4 encoder (the reference its decoder is proved against)
+		raw := vlib.UnHex(f[2])
+		text := base64.StdEncoding.EncodeToString(raw)
+		back, derr := dnssec.VerifC14FromBase64([]byte(text))
+		or := "ok"
+		if derr != nil || !bytes.Equal(back, raw) {
+			or = "FAIL sig=b64/fromBase64-does-not-invert-encoding"
+		}
+		return vlib.Res{Impl: hexStr(text), Oracle: or}
+
 	case "kt tag":
 		return execKeyTag(f)
 
